@@ -16,6 +16,17 @@ EXTENDS Integers
 
 INF == 1000000000   \* stands for an infinite total duration
 
+\* f32 rounding of a non-negative integer number of ticks (< 2^30): round-to-nearest-even to 24
+\* significant bits.  Ticks are a power of two seconds, so this is exactly what converting the
+\* corresponding exact time to f32 does (Duration::as_secs_f32, fl(cycle * (repeats + 1))).
+RECURSIVE Ulp(_, _)
+Ulp(v, m) == IF v < 16777216 * m THEN m ELSE Ulp(v, 2 * m)
+F32Round(v) == IF v < 16777216 THEN v
+               ELSE LET m == Ulp(v, 1)  r == v % m  b == v - r IN
+                    IF 2 * r > m THEN b + m
+                    ELSE IF 2 * r < m THEN b
+                    ELSE IF ((b \div m) % 2) = 0 THEN b ELSE b + m
+
 Cycles(tm) == IF tm.rep = -1 THEN 1 ELSE tm.rep + 1          \* repeats + 1 (finite)
 Total(tm)  == IF tm.rep = -2 THEN INF ELSE tm.del + tm.cyc * Cycles(tm)
 
